@@ -34,6 +34,20 @@ type pxFrame struct {
 	parent *pxFrame
 	site   *ssa.Call
 	depth  int
+	// a function literal stepped into: the terms its free variables were bound to
+	// when the closure was made, and (for variables captured by reference) the
+	// cell of the creating frame they stand for
+	fvTerm map[*ssa.FreeVar]*Term
+	fvCell map[*ssa.FreeVar]string
+	// the frame was entered through a function value (not a static call)
+	viaValue bool
+}
+
+// pxClosure: a function value made on the current exploration.
+type pxClosure struct {
+	fn    *ssa.Function
+	binds []*Term  // binding terms at creation
+	cells []string // per binding: the local cell it is the address of ("" if none)
 }
 
 type pxState struct {
@@ -113,6 +127,8 @@ type PX struct {
 	// views: slices of slices / strings are terms view(root, lo, hi) with symbolic
 	// bounds, and len of a view is hi-lo (see pxviews.go); off by default.
 	views bool
+	// function values made along the exploration, by the key of their term (pxfuncs.go)
+	closures map[string]*pxClosure
 }
 
 func (w *World) newPX(h pxHooks) *PX {
@@ -168,12 +184,29 @@ func (p *PX) term(v ssa.Value, fr *pxFrame, st *pxState) *Term {
 			return t
 		}
 		return &Term{K: TLeaf, V: v, T: v.Type(), key: "<" + fr.id + "p:" + x.Name() + ">"}
+	case *ssa.FreeVar:
+		if t, ok := fr.fvTerm[x]; ok {
+			return t
+		}
 	case *ssa.Phi:
 		if t, ok := st.vals[p.reg(fr, v)]; ok {
 			return t
 		}
 	case *ssa.BinOp:
 		a, b := p.term(x.X, fr, st), p.term(x.Y, fr, st)
+		// a function value known on this path is not nil
+		if x.Op == token.EQL || x.Op == token.NEQ {
+			if (p.isFuncValue(a) && strings.HasPrefix(b.key, "nil:")) || (p.isFuncValue(b) && strings.HasPrefix(a.key, "nil:")) {
+				r := x.Op == token.NEQ
+				return &Term{K: TBoolConst, Bool: r, T: v.Type(), key: fmt.Sprintf("%v", r)}
+			}
+			// a concrete value boxed into an interface (`return newCodecError(…)` from a
+			// function stepped into) is a non-nil interface value
+			if (isBoxed(a) && strings.HasPrefix(b.key, "nil:")) || (isBoxed(b) && strings.HasPrefix(a.key, "nil:")) {
+				r := x.Op == token.NEQ
+				return &Term{K: TBoolConst, Bool: r, T: v.Type(), key: fmt.Sprintf("%v", r)}
+			}
+		}
 		// (x >> a) >> b = x >> (a+b) for constant shifts of the same signedness (bits >>= 8 in a loop)
 		if x.Op == token.SHR && b.K == TConst && a.K == TBin && a.Op == token.SHR && a.B.K == TConst && types.Identical(a.T, v.Type()) {
 			sum := new(big.Int).Add(a.B.C, b.C)
@@ -225,7 +258,20 @@ func (p *PX) term(v ssa.Value, fr *pxFrame, st *pxState) *Term {
 			if t, ok := st.vals[p.reg(fr, v)]; ok {
 				return t
 			}
+			// a read out of a constant table (consttab.go)
+			if t := p.w.ctabTermOf(v, func(iv ssa.Value) *Term { return p.term(iv, fr, st) }); t != nil {
+				return t
+			}
 			if fa, ok := x.X.(*ssa.FieldAddr); ok {
+				// a field of a local struct: the value last stored there on this path
+				// (directly, or as a component of a whole-struct assignment), unless the
+				// field may have been written since through another pointer
+				if al, isLocal := fa.X.(*ssa.Alloc); isLocal {
+					fk := fmt.Sprintf("%s.%d", p.reg(fr, al), fa.Field)
+					if t, ok := st.vals[fk]; ok && p.fieldVerKey(fieldID(fa), st) == p.localFieldVer(fk, st) {
+						return t
+					}
+				}
 				key := p.fieldLoadKey(fa, fr, st)
 				if t, ok := st.vals["mem:"+key]; ok {
 					return t
@@ -235,6 +281,16 @@ func (p *PX) term(v ssa.Value, fr *pxFrame, st *pxState) *Term {
 			if g, ok := x.X.(*ssa.Global); ok {
 				if c, ok := p.w.globalInit(g); ok {
 					return &Term{K: TConst, C: c, T: v.Type(), key: c.String()}
+				}
+			}
+			// a variable captured by reference, read inside the function literal: the
+			// value last stored in the creating frame's cell on this path
+			if fv, ok := x.X.(*ssa.FreeVar); ok {
+				if cell := fr.fvCell[fv]; cell != "" {
+					if t, ok := st.vals[cell+"*"]; ok {
+						return t
+					}
+					return &Term{K: TLeaf, V: v, T: v.Type(), key: "<*" + cell + ">"}
 				}
 			}
 			// load of a local variable: the value last stored on this path
@@ -323,7 +379,14 @@ func (p *PX) term(v ssa.Value, fr *pxFrame, st *pxState) *Term {
 			}
 		}
 	case *ssa.Field:
+		if t := p.w.ctabTermOf(v, func(iv ssa.Value) *Term { return p.term(iv, fr, st) }); t != nil {
+			return t
+		}
 		a := p.term(x.X, fr, st)
+		// a field of a struct value whose components are known on this path
+		if a.K == TPure && a.Name == "struct" && x.Field < len(a.Args) && !strings.HasPrefix(a.Args[x.Field].key, "zero:") {
+			return a.Args[x.Field]
+		}
 		return &Term{K: TLeaf, V: v, T: v.Type(), key: fmt.Sprintf("fld(%s,.%d)", a.key, x.Field)}
 	case *ssa.IndexAddr:
 		a, i := p.term(x.X, fr, st), p.term(x.Index, fr, st)
@@ -354,6 +417,9 @@ func (p *PX) term(v ssa.Value, fr *pxFrame, st *pxState) *Term {
 		if b, ok := x.X.Type().Underlying().(*types.Basic); ok && b.Info()&types.IsString != 0 {
 			a, i := p.term(x.X, fr, st), p.term(x.Index, fr, st)
 			return &Term{K: TPure, Name: "strindex", Args: []*Term{a, i}, T: v.Type(), key: "idx(" + a.key + "," + i.key + ")"}
+		}
+		if t := p.w.ctabTermOf(v, func(iv ssa.Value) *Term { return p.term(iv, fr, st) }); t != nil {
+			return t
 		}
 	case *ssa.Slice:
 		if p.views {
@@ -605,21 +671,32 @@ func (p *PX) instrs(fr *pxFrame, b *ssa.BasicBlock, from int, st *pxState, k pxC
 		case *ssa.Store:
 			// local variable cells and symbolic byte sequences
 			if al, ok := x.Addr.(*ssa.Alloc); ok {
-				st.vals[p.reg(fr, al)+"*"] = p.term(x.Val, fr, st)
+				vt := p.term(x.Val, fr, st)
+				st.vals[p.reg(fr, al)+"*"] = vt
+				p.splitStruct(fr, al, vt, st)
+			}
+			if fv, ok := x.Addr.(*ssa.FreeVar); ok {
+				if cell := fr.fvCell[fv]; cell != "" {
+					st.vals[cell+"*"] = p.term(x.Val, fr, st)
+				}
 			}
 			p.structStore(x, st)
 			if fa, ok := x.Addr.(*ssa.FieldAddr); ok {
 				vt := p.term(x.Val, fr, st)
-				if al, isLocal := fa.X.(*ssa.Alloc); isLocal {
-					st.vals[fmt.Sprintf("%s.%d", p.reg(fr, al), fa.Field)] = vt
-				}
 				p.bumpField(fieldID(fa), st)
+				if al, isLocal := fa.X.(*ssa.Alloc); isLocal {
+					fk := fmt.Sprintf("%s.%d", p.reg(fr, al), fa.Field)
+					st.vals[fk] = vt
+					st.vals[fk+"@"] = st.vals["ver:"+fieldID(fa)]
+					// the whole-struct value, if one was assigned, is no longer current
+					delete(st.vals, p.reg(fr, al)+"*")
+				}
 				// the value stays readable under the field's NEW version: any later store to
 				// this field of any object of the type (direct, in a summarised loop, or by a
 				// callee that is not stepped into) advances the version, so a load finds the
 				// value only while nothing can have overwritten it — whichever frame holds
 				// the pointer (struct-carried state handed to helpers by address)
-				if p.fieldCellTracked(fa, vt, fr, st) {
+				if p.fieldCellTracked(fa, vt, fr, st) || (vt.K == TPure && vt.Name == "append") {
 					st.vals["mem:"+p.fieldLoadKey(fa, fr, st)] = vt
 				}
 				st.trace = append(st.trace, pxEvent{Kind: "fieldstore", Frame: fr, Args: []*Term{vt}, Env: st.env, Pos: p.w.instrPos(x), Extra: fieldID(fa)})
@@ -644,11 +721,19 @@ func (p *PX) instrs(fr *pxFrame, b *ssa.BasicBlock, from int, st *pxState, k pxC
 					st.trace = append(st.trace, pxEvent{Kind: "mapupdate", Frame: fr, Args: []*Term{p.term(x.Key, fr, st), p.term(x.Value, fr, st)}, Env: st.env, Pos: p.w.instrPos(x), Extra: fieldID(fa)})
 				}
 			}
+		case *ssa.MakeClosure:
+			p.recordClosure(x, fr, st)
 		case *ssa.Call:
 			p.byteCall(x, fr, st)
 			p.appendCells(x, fr, st)
 			// a method expression `(*T).M(recv, args…)` calls M through a thunk with M's own operands
 			sc := p.w.unthunk(x.Call.StaticCallee())
+			var clo *pxClosure
+			var recvTerm *Term
+			if sc == nil && stepIn {
+				// a call of a function value known on this path (pxfuncs.go)
+				sc, clo, recvTerm = p.funcValueCallee(x, fr, st)
+			}
 			if sc == nil || !stepIn {
 				if sc != nil {
 					p.callEffects(sc, st)
@@ -667,11 +752,27 @@ func (p *PX) instrs(fr *pxFrame, b *ssa.BasicBlock, from int, st *pxState, k pxC
 			}
 			p.seq++
 			child := &pxFrame{fn: sc, id: fmt.Sprintf("%sc%d/", fr.id, p.seq), subst: map[*ssa.Parameter]*Term{}, parent: fr, site: x, depth: fr.depth + 1}
-			for ai, prm := range sc.Params {
+			off := 0
+			if recvTerm != nil && len(sc.Params) > 0 {
+				// a method value: the receiver was bound when the value was made
+				child.subst[sc.Params[0]] = recvTerm
+				off = 1
+			}
+			for ai, prm := range sc.Params[off:] {
 				if ai < len(x.Call.Args) {
 					child.subst[prm] = p.term(x.Call.Args[ai], fr, st)
 					if bs := p.byteSeqOf(x.Call.Args[ai], fr, st); bs != nil {
 						st.bseq[child.id+regName(prm)] = bs
+					}
+				}
+			}
+			child.viaValue = x.Call.StaticCallee() == nil
+			if clo != nil && recvTerm == nil {
+				child.fvTerm, child.fvCell = map[*ssa.FreeVar]*Term{}, map[*ssa.FreeVar]string{}
+				for i, fv := range sc.FreeVars {
+					if i < len(clo.binds) {
+						child.fvTerm[fv] = clo.binds[i]
+						child.fvCell[fv] = clo.cells[i]
 					}
 				}
 			}
@@ -834,6 +935,50 @@ func (p *PX) fieldLoadKey(fa *ssa.FieldAddr, fr *pxFrame, st *pxState) string {
 		key += "@" + v.C.String()
 	}
 	return key + ">"
+}
+
+// fieldVerKey / localFieldVer: the version of a field id now, and the version at
+// which a local struct's field was last recorded.
+func (p *PX) fieldVerKey(id string, st *pxState) string {
+	if v, ok := st.vals["ver:"+id]; ok {
+		return v.key
+	}
+	return ""
+}
+
+func (p *PX) localFieldVer(fk string, st *pxState) string {
+	if v, ok := st.vals[fk+"@"]; ok && v != nil {
+		return v.key
+	}
+	return ""
+}
+
+// splitStruct: a struct value assigned as a whole to a local (`shape := shapeOf(n)`
+// with the helper stepped into, `*t = s`): its fields are the components of the
+// value, so that `shape.reserved` read afterwards is the term the helper computed.
+func (p *PX) splitStruct(fr *pxFrame, al *ssa.Alloc, vt *Term, st *pxState) {
+	pt, ok := al.Type().Underlying().(*types.Pointer)
+	if !ok {
+		return
+	}
+	stt, ok := pt.Elem().Underlying().(*types.Struct)
+	if !ok || stt.NumFields() == 0 || stt.NumFields() > 8 {
+		return
+	}
+	id := types.TypeString(pt.Elem(), nil)
+	for i := 0; i < stt.NumFields(); i++ {
+		var ft *Term
+		if vt.K == TPure && vt.Name == "struct" && len(vt.Args) == stt.NumFields() {
+			ft = vt.Args[i]
+		} else {
+			ft = &Term{K: TLeaf, T: stt.Field(i).Type(), key: fmt.Sprintf("fld(%s,.%d)", vt.key, i)}
+		}
+		fid := fmt.Sprintf("%s.%d", id, i)
+		p.bumpField(fid, st)
+		fk := fmt.Sprintf("%s.%d", p.reg(fr, al), i)
+		st.vals[fk] = ft
+		st.vals[fk+"@"] = st.vals["ver:"+fid]
+	}
 }
 
 func (p *PX) bumpField(id string, st *pxState) {
